@@ -2,6 +2,7 @@ import PybropsModel.J
 import PybropsModel.Model.RRBlup
 import PybropsModel.Model.GenomicSpec
 import PybropsModel.Model.RRSpec
+import PybropsModel.Model.RRSolve
 open Lean
 
 namespace Drv.C04
@@ -232,7 +233,7 @@ def opGs : J.Op := fun j => do
   let atol ← J.field j "atol" J.rat
   let maxiter ← J.field j "maxiter" J.nat
   let x := gaussSeidel A b atol maxiter
-  let sweeps := gsSweeps A b atol maxiter (decide (atol < atol + atol)) (b.map (fun _ => (0:Rat)))
+  let sweeps := gsSweeps A b atol maxiter true (b.map (fun _ => (0:Rat)))
   pure <| J.obj [("x", J.ofList J.ofRat x), ("sweeps", J.ofNat sweeps)]
 
 /-- Spec for a direct `gauss_seidel(A, b, atol, maxiter)` call with symmetric A, positive diagonal:
@@ -248,6 +249,10 @@ def opSpecGs : J.Op := fun j => do
   pure <| J.obj [("ok", J.ofBool (RSpec.specGs REL A b xs)),
                  ("detail", J.ofStr s!"energy={RSpec.energyQ A b xs} len={xs.length}")]
 
+/-- the repaired `rrBLUP_ML0` run with the exact reference solver.  Besides the model's effects the answer says
+    which branch of the solve step the model took (`fallback`), the Gauss–Seidel iterate before it, and — when
+    the implementation's effects are handed in as `impl_u` — whether they satisfy the contract of
+    `numpy.linalg.solve` on this system: `‖b − A û‖∞ ≤ 1e-9·(‖A‖∞‖û‖∞ + ‖b‖∞)` (backward stability) -/
 def opMl0 : J.Op := fun j => do
   let y ← J.field j "y" (J.list J.rat)
   let Z ← J.field j "Z" rmat
@@ -255,8 +260,21 @@ def opMl0 : J.Op := fun j => do
   let ridge ← J.field j "ridge" J.rat
   let atol ← J.field j "atol" J.rat
   let maxiter ← J.field j "maxiter" J.nat
-  let (b0, u) := ml0 y Z p ridge atol maxiter
-  pure <| J.obj [("betahat", J.ofRat b0), ("uhat", J.ofList J.ofRat u),
+  let implU ← J.fieldOpt j "impl_u" (J.list J.rat)
+  let A := ztzPlusRidge Z p ridge
+  let b := zty Z p (center y)
+  let gs := gaussSeidel A b atol maxiter
+  let fallback := decide ((atol + atol) * rowAbsMax A < residMax A b gs)
+  let b0 := mean y
+  let u := solveStep exactSolve A b atol gs      -- = (ml0 exactSolve y Z p ridge atol maxiter).2
+  let contract := match implU with
+    | none => true
+    | some iu =>
+      let uinf := iu.foldl (fun m v => maxQ m (absQ v)) 0
+      let binf := b.foldl (fun m v => maxQ m (absQ v)) 0
+      iu.length == p && decide (residMax A b iu ≤ REL * (rowAbsMax A * uinf + binf))
+  pure <| J.obj [("betahat", J.ofRat b0), ("uhat", J.ofList J.ofRat u), ("gs_u", J.ofList J.ofRat gs),
+                 ("fallback", J.ofBool fallback), ("contract_ok", J.ofBool contract),
                  ("psse", J.ofRat (psse y Z ridge u)), ("psse0", J.ofRat (psse y Z ridge (u.map (fun _ => 0))))]
 
 /-- wrapper of `fit_numpy` with the per-trait solutions as oracle inputs -/
